@@ -1449,13 +1449,20 @@ void TopologyKernel::swap_cell_indices(CellHandle _h1, CellHandle _h2)
 
     // correct pointers to those cells
     if (has_face_bottom_up_incidences()) {
+        // Find the halffaces pointing to _h1 first: a halfface can be listed by both
+        // cells (a deferred-deleted cell and a live one created on the same halffaces),
+        // and must then not be flipped back by the second loop.
+        std::vector<HalfFaceHandle> pointing_to_h1;
         for (const auto hfh: cells_[_h1].halffaces()) {
             if (incident_cell_per_hf_[hfh] == _h1)
-                incident_cell_per_hf_[hfh] = _h2;
+                pointing_to_h1.push_back(hfh);
         }
         for (const auto hfh: cells_[_h2].halffaces()) {
             if (incident_cell_per_hf_[hfh] == _h2)
                 incident_cell_per_hf_[hfh] = _h1;
+        }
+        for (const auto hfh: pointing_to_h1) {
+            incident_cell_per_hf_[hfh] = _h2;
         }
     }
 
